@@ -27,6 +27,15 @@ TEMPLATE_MUTATORS = {'localise', 'translate', 'add_out', 'remove', 'make_unique'
 SINKS = {'add_brush', 'add_ent', 'add_ents', 'add_brushes', 'add_out'}
 
 
+def _anc17(mod: Any, n: ast.AST, stop: Any) -> List[ast.AST]:
+    out = []
+    p = mod.parents.get(n)
+    while p is not None and p is not stop:
+        out.append(p)
+        p = mod.parents.get(p)
+    return out
+
+
 def run(ctx: Any, prog: Program) -> None:
     ins = prog.module('instancing')
     vm = prog.module('vmf')
@@ -290,14 +299,106 @@ def run(ctx: Any, prog: Program) -> None:
     got_origin = None
     for n in walk_no_nested(co):
         if isinstance(n, ast.Assign) and isinstance(n.targets[0], ast.Subscript) and isinstance(n.targets[0].slice, ast.Constant) and n.targets[0].slice.value == 'origin' and isinstance(n.targets[0].value, ast.Name):
-            got_origin = shape(n.value, co_orient, co_origin)
-    ctx.check('C17.N3', got_origin == 'rot+pos', ins, co, f'collapse_one must set origin = value @ orient + origin; found shape {got_origin}', text='collapse_one origin')
+            v_ = n.value
+            # `str(<local>)`: the local's own definition is what is written
+            inner_ = v_.args[0] if isinstance(v_, ast.Call) and dotted(v_.func) == 'str' and len(v_.args) == 1 else v_
+            if isinstance(inner_, ast.Name):
+                defs_ = [a.value for a in walk_no_nested(co) if isinstance(a, ast.Assign) and any(isinstance(t, ast.Name) and t.id == inner_.id for t in a.targets)]
+                if len(defs_) == 1:
+                    v_ = defs_[0]
+            got_origin = shape(v_, co_orient, co_origin)
+    if got_origin in (None, '?'):
+        ctx.shape('C17.N3', False, ins, co, 'the value stored under "origin" is not recognisably `<vector> @ orient + origin`', text='collapse_one origin')
+    else:
+        ctx.check('C17.N3', got_origin == 'rot+pos', ins, co, f'collapse_one must set origin = value @ orient + origin; found shape {got_origin}', text='collapse_one origin')
     ok = any(isinstance(n, ast.AugAssign) and isinstance(n.op, ast.MatMult) and isinstance(n.target, ast.Name) and dotted(n.value) == co_orient for n in walk_no_nested(co))
     ctx.check('C17.N3', ok, ins, co, 'collapse_one must rotate the entity angles by the instance orientation (angles @= orient)', text='collapse_one angles')
     # brushes are localised with (origin, orient)
-    loc_calls = [c for c in walk_no_nested(co) if isinstance(c, ast.Call) and isinstance(c.func, ast.Attribute) and c.func.attr == 'localise']
-    ok = len(loc_calls) >= 2 and all([dotted(a) for a in c.args] == [co_origin, co_orient] for c in loc_calls)
-    ctx.check('C17.N3', ok, ins, loc_calls[0] if loc_calls else co, 'every copied brush must be localised with (origin, orient)', text='brushes localised')
+    # (the calls may sit in private module-level helpers that collapse_one hands its work to)
+    mod_fns17 = {q: fl[0] for q, fl in ins.all_funcs().items() if '.' not in q}
+    scope17: List[ast.AST] = [co]
+    for _ in range(2):
+        for f_ in list(scope17):
+            for c in walk_no_nested(f_):
+                if isinstance(c, ast.Call) and isinstance(c.func, ast.Name) and c.func.id.startswith('_') and c.func.id in mod_fns17 and mod_fns17[c.func.id] not in scope17:
+                    scope17.append(mod_fns17[c.func.id])
+    loc_calls = [c for f_ in scope17 for c in walk_no_nested(f_) if isinstance(c, ast.Call) and isinstance(c.func, ast.Attribute) and c.func.attr == 'localise']
+
+    def loc_role(a: ast.AST) -> str:
+        if isinstance(a, ast.Name):
+            return 'pos' if a.id == co_origin else ('orient' if a.id == co_orient else '?')
+        if isinstance(a, ast.Attribute) and isinstance(a.value, ast.Name):
+            return 'pos' if a.attr == 'pos' else ('orient' if a.attr == 'orient' else '?')
+        return '?'
+    ctx.shape('C17.N3', len(loc_calls) >= 2, ins, co, f'{len(loc_calls)} localise() calls found in collapse_one and its helpers (world brushes and entity brushes expected)', text='brushes localised: call sites')
+    for c in loc_calls:
+        roles17 = [loc_role(a) for a in c.args]
+        if '?' in roles17 or len(roles17) != 2:
+            ctx.shape('C17.N3', False, ins, c, f'arguments of `{U(c)[:60]}` are not recognisably the instance position and orientation', text='brushes localised')
+        else:
+            ctx.check('C17.N3', roles17 == ['pos', 'orient'], ins, c, f'every copied brush must be localised with (origin, orient); `{U(c)[:60]}` passes {roles17}', text='brushes localised')
+    # ---- N8: every text taken from the copied entity goes through the fixup substitution before it is used ------------------------------------
+    # "whose $variables are substituted": the per-entity part of collapse_one may read a keyvalue of the copy only inside
+    # `<fixup>.substitute(...)`, and in the loop over the keyvalues the substituted text is what every arm works with - also the arm for keys
+    # the FGD does not know, which has to store it (the type is unknown, the variables are not).
+    ctx.rule('C17.N8', 'keyvalues of a copied entity are read through fixup.substitute(), and the unknown-key arm stores the substituted text', floor=3)
+    kv_loops = [n for n in walk_no_nested(co) if isinstance(n, ast.For) and isinstance(n.iter, ast.Call) and isinstance(n.iter.func, ast.Attribute) and n.iter.func.attr == 'items'
+                and isinstance(n.iter.func.value, ast.Name) and isinstance(n.target, ast.Tuple) and len(n.target.elts) == 2
+                and any(isinstance(c, ast.Call) and isinstance(c.func, ast.Attribute) and c.func.attr == 'substitute' for b in n.body for c in ast.walk(b))
+                and any(isinstance(c, ast.Call) and isinstance(c.func, ast.Attribute) and c.func.attr == 'fixup_key' for b in n.body for c in ast.walk(b))]
+    ctx.shape('C17.N8', len(kv_loops) == 1, ins, co, f'{len(kv_loops)} key-value loops with substitute() and fixup_key() found in collapse_one (1 expected)', text='key-value loop')
+    for kl in kv_loops:
+        ent_var = kl.iter.func.value.id
+        key_var, val_var = (e.id if isinstance(e, ast.Name) else '?' for e in kl.target.elts)
+        outer = ins.parents.get(kl)
+        scope_body = getattr(outer, 'body', [])
+        # (a) reads of the copy's keyvalues in the same per-entity block
+        for st in scope_body:
+            for r in ast.walk(st):
+                if isinstance(r, ast.Subscript) and isinstance(r.ctx, ast.Load) and isinstance(r.value, ast.Name) and r.value.id == ent_var and isinstance(r.slice, ast.Constant) and isinstance(r.slice.value, str):
+                    if r.slice.value.casefold() in ('classname',):
+                        continue            # decides which definition is used, before any fix-up
+                    wrapped = any(isinstance(a, ast.Call) and isinstance(a.func, ast.Attribute) and a.func.attr == 'substitute' for a in _anc17(ins, r, outer))
+                    ctx.check('C17.N8', wrapped, ins, r, f'collapse_one computes with the raw template text `{U(r)}`: a $variable in that keyvalue is never replaced (an unparsable text silently becomes the default - '
+                              f'`"{r.slice.value}" "$var"` ends up as zero)', text=f'`{U(r)}` read through substitute()')
+        # (b) the loop variable holding the text is replaced by its substitution before anything else looks at it
+        first_sub = next((i for i, b in enumerate(kl.body) if isinstance(b, ast.Assign) and isinstance(b.value, ast.Call) and isinstance(b.value.func, ast.Attribute) and b.value.func.attr == 'substitute'
+                          and any(isinstance(t, ast.Name) and t.id == val_var for t in b.targets) and any(isinstance(x, ast.Name) and x.id == val_var for a in b.value.args for x in ast.walk(a))), None)
+        early_use = first_sub is None or any(isinstance(x, ast.Name) and x.id == val_var for b in kl.body[:first_sub] for x in ast.walk(b))
+        ctx.check('C17.N8', not early_use, ins, kl, f'the key-value loop uses `{val_var}` before (or without) replacing it by `substitute({val_var})`', text='loop value substituted first')
+        # (c) the arm for keys unknown to the FGD
+        for tr in [t for b in kl.body for t in ast.walk(b) if isinstance(t, ast.Try)]:
+            if not any(isinstance(x, ast.Subscript) and isinstance(x.value, ast.Attribute) and x.value.attr == 'kv' for b in tr.body for x in ast.walk(b)):
+                continue
+            for h in tr.handlers:
+                if dotted(h.type) != 'KeyError':
+                    continue
+                stores = [a for a in h.body if isinstance(a, ast.Assign) and any(isinstance(t, ast.Subscript) and isinstance(t.value, ast.Name) and t.value.id == ent_var and dotted(t.slice) == key_var for t in a.targets)
+                          and dotted(a.value) == val_var]
+                ctx.check('C17.N8', bool(stores), ins, h, f'a keyvalue the entity definition does not list is skipped without storing the substituted text: `"{{key}}" "$var"` keeps the literal `$var` in the collapsed map',
+                          text='unknown keys keep the substituted text')
+
+    # ---- N7: keyvalues are fixed up only after every entity (and so every face) has been copied -------------------------------------------
+    # side lists (`sides`) are remapped through inst.face_ids, which the copies fill: the collection the fix-up loop walks has to be complete
+    # before the loop starts.  A generator that copies on demand interleaves the two, and an overlay placed before the brush it refers to
+    # loses that face.
+    ctx.rule('C17.N7', 'the key-value fix-up loop runs over a completed list of copies (no lazy copying)', floor=1)
+    copy_loops = [(f_, n) for f_ in scope17 for n in walk_no_nested(f_) if isinstance(n, ast.For) and any(isinstance(c, ast.Call) and isinstance(c.func, ast.Attribute) and c.func.attr == 'copy'
+                                                                                                       and any(k.arg == 'side_mapping' for k in c.keywords) for b in n.body for c in ast.walk(b))
+                  and (dotted(n.iter) or '').endswith('.entities')]
+    ctx.shape('C17.N7', len(copy_loops) == 1, ins, co, f'{len(copy_loops)} entity copy loops found (1 expected)', text='entity copy loop')
+    for f_, cl in copy_loops:
+        lazy = f_ is not co and any(isinstance(y, (ast.Yield, ast.YieldFrom)) for y in walk_no_nested(f_))
+        if f_ is co:
+            ctx.check('C17.N7', True, ins, cl, 'the copy loop is a statement of collapse_one: it has finished before the next loop starts', text='copies complete before fix-up')
+            continue
+        callers = [c for c in walk_no_nested(co) if isinstance(c, ast.Call) and isinstance(c.func, ast.Name) and mod_fns17.get(c.func.id) is f_]
+        for c in callers:
+            par = ins.parents.get(c)
+            materialised = isinstance(par, ast.Call) and dotted(par.func) in ('list', 'tuple', 'sorted') or isinstance(par, ast.Starred)
+            ctx.check('C17.N7', not lazy or materialised, ins, c, f'`{U(c)[:60]}` is a generator ({f_.name} yields each copy) and is walked directly by the fix-up loop: entity n is fixed up before entity n+1 has been copied, so '
+                      'inst.face_ids / ent_ids are incomplete when side lists and entity references are remapped', text='copies complete before fix-up')
+        ctx.shape('C17.N7', bool(callers), ins, cl, f'call of {f_.name} from collapse_one not found', text='copy helper call')
     # a copied brush moved by anything but localise(): the other mover must shift everything localise() shifts by the origin.
     def _moved_by(fn: ast.AST, param: str) -> Set[str]:
         """attributes of self whose update in `fn` depends on `param` (directly, through elements of a loop over them, or a call on them)"""
@@ -555,6 +656,10 @@ def n6_substitute(ctx: Any, vm: Any) -> None:
 
 
 MUTANTS = [
+    {'id': 'angles_parsed_from_raw_text', 'file': 'instancing.py', 'find': "        angles = Angle.from_str(inst.fixup.substitute(new_ent['angles'], ''))", 'replace': "        angles = Angle.from_str(new_ent['angles'])", 'expect': 'C17.N8'},
+    {'id': 'unknown_key_keeps_variable', 'file': 'instancing.py', 'find': "                # We don't know the type, but variables still need to be substituted.\n                new_ent[key] = value\n", 'replace': "", 'expect': 'C17.N8'},
+    {'id': 'origin_computed_before_substitution', 'file': 'instancing.py', 'find': "        angles = Angle.from_str(inst.fixup.substitute(new_ent['angles'], ''))", 'replace': "        ent_pos = Vec.from_str(new_ent['origin']) @ orient + origin\n        angles = Angle.from_str(inst.fixup.substitute(new_ent['angles'], ''))", 'extra': [{'file': 'instancing.py', 'find': "                new_ent['origin'] = str(Vec.from_str(value) @ orient + origin)", 'replace': "                new_ent['origin'] = str(ent_pos)"}], 'expect': 'C17.N8'},
+    {'id': 'ok_origin_from_substituted_local', 'file': 'instancing.py', 'find': "                new_ent['origin'] = str(Vec.from_str(value) @ orient + origin)", 'replace': "                ent_pos = Vec.from_str(value) @ orient + origin\n                new_ent['origin'] = str(ent_pos)", 'expect': None},
     {'id': 'class_lookup_prechecked_unfolded', 'file': 'instancing.py', 'find': "            try:\n                ent_type = EntityDef.engine_def(classname)\n            except KeyError:\n", 'replace': "            if classname in EntityDef.engine_classes():\n                ent_type = EntityDef.engine_def(classname)\n            else:\n", 'expect': 'C17.N4'},
     {'id': 'ok_class_lookup_prechecked_folded', 'file': 'instancing.py', 'find': "            try:\n                ent_type = EntityDef.engine_def(classname)\n            except KeyError:\n", 'replace': "            if classname.casefold() in EntityDef.engine_classes():\n                ent_type = EntityDef.engine_def(classname)\n            else:\n", 'expect': None},
     {'id': 'entity_copy_unhides_solids', 'file': 'vmf.py', 'find': "            solid.copy(vmf_file=vmf_file, side_mapping=side_mapping)\n", 'replace': "            solid.copy(vmf_file=vmf_file, side_mapping=side_mapping, keep_vis=keep_vis)\n", 'expect': 'C17.N5'},
